@@ -49,9 +49,20 @@ type gates struct {
 	events chan gateEvent
 	mu     sync.Mutex
 	dead   map[string]bool // tx hashes whose QueryTx keeps failing (scripted time-out)
+	// local prerequisites of submitPrice that the script has switched off ("auth": account query, "sim": gas
+	// simulation; "key" is realised on the keyring itself)
+	off map[string]bool
 }
 
-func newGates() *gates { return &gates{events: make(chan gateEvent), dead: map[string]bool{}} }
+func (g *gates) isOff(kind string) bool {
+	g.mu.Lock()
+	defer g.mu.Unlock()
+	return g.off[kind]
+}
+
+func newGates() *gates {
+	return &gates{events: make(chan gateEvent), dead: map[string]bool{}, off: map[string]bool{}}
+}
 
 // fakeClient implements only what client.Context needs for CalculateGas and BroadcastTx; any other
 // method of the embedded nil interface panics (none is reached by the submitter).
@@ -66,6 +77,9 @@ func (c *fakeClient) Remote() string { return "verif" }
 func (c *fakeClient) ABCIQueryWithOptions(_ context.Context, _ string, _ cmtbytes.HexBytes,
 	_ rpcclient.ABCIQueryOptions) (*coretypes.ResultABCIQuery, error) {
 	// the only query the submitter makes through the node is tx simulation (gas estimate)
+	if c.g.isOff("sim") {
+		return nil, errors.New("scripted: simulation unavailable")
+	}
 	simRes := &sdk.SimulationResponse{GasInfo: sdk.GasInfo{GasWanted: 200000, GasUsed: 100000}}
 	bz, err := c.cdc.GRPCCodec().Marshal(simRes)
 	if err != nil {
@@ -88,6 +102,9 @@ func (c *fakeClient) BroadcastTxSync(_ context.Context, tx cmttypes.Tx) (*corety
 		return &coretypes.ResultBroadcastTx{Code: 0, Hash: tmhash.Sum(tx)}, nil
 	case "chk":
 		return &coretypes.ResultBroadcastTx{Code: 5, Codespace: "sdk", Log: "scripted CheckTx failure", Hash: tmhash.Sum(tx)}, nil
+	case "oog":
+		return &coretypes.ResultBroadcastTx{Code: sdkerrors.ErrOutOfGas.ABCICode(), Codespace: sdkerrors.RootCodespace,
+			Log: "scripted out of gas", Hash: tmhash.Sum(tx)}, nil
 	}
 	return nil, errors.New("scripted transport error")
 }
@@ -113,9 +130,12 @@ func (q *fakeTxQuerier) QueryTx(hash string) (*sdk.TxResponse, error) {
 	return nil, errors.New("scripted: tx not found")
 }
 
-type fakeAuthQuerier struct{}
+type fakeAuthQuerier struct{ g *gates }
 
-func (fakeAuthQuerier) QueryAccount(address sdk.Address) (*authtypes.QueryAccountResponse, error) {
+func (a fakeAuthQuerier) QueryAccount(address sdk.Address) (*authtypes.QueryAccountResponse, error) {
+	if a.g.isOff("auth") {
+		return nil, errors.New("scripted: account query unavailable")
+	}
 	acc := authtypes.NewBaseAccountWithAddress(sdk.AccAddress(address.Bytes()))
 	any, err := codectypes.NewAnyWithValue(acc)
 	if err != nil {
